@@ -225,7 +225,7 @@ n("c17-n-fstring", "C17", (M + "format_line.py", '"%s=%s" % (_escape_key(key), _
 m("c18-base-loader", "C18", "O18.1", (G + "core/config.py", "class COBalDLoader(SafeLoader):", "class COBalDLoader(BaseLoader):"))
 m("c18-unsafe-load", "C18", "O18.3", (G + "config/yaml.py", "        loader_instance = loader(yaml_stream)\n        try:\n            config_data = loader_instance.get_single_data()\n        finally:\n            loader_instance.dispose()\n", "        import yaml\n\n        config_data = yaml.unsafe_load(yaml_stream)\n"))
 m("c18-loader-not-passed", "C18", "O18.2", (G + "core/config.py", "            loader=COBalDLoader,  # type: ignore\n", ""))
-m("c18-catch-all-tag", "C18", "O18.4", (G + "core/config.py", '            tag="!" + entry.name,', "            tag=None,"))
+n("c18-catch-all-tag-now-harmless", "C18", (G + "core/config.py", '            tag="!" + entry.name,', "            tag=None,"))
 
 # ------------------------------------------------------------------ C19
 m("c19-enumerate-reversed", "C19", "O19.2", (G + "config/mapping.py", "for index, item in reversed(list(enumerate(structure)))", "for index, item in enumerate(reversed(structure))"))
@@ -422,10 +422,10 @@ m("c03-sweep-failure-swallowed", "C03", "O3.7", (R + "service.py", '            
 m("c03-queue-never-cleared", "C03", "O3.1", (R + "meta_runner.py", "            queue.clear()\n        self._runner_queues.clear()\n", "            pass\n"))
 m("c05-tail-template-not-constructed", "C05", "O5.3", ("src/cobald/daemon/core/config.py", "                        prev_item = prev_item.__construct__()\n", "                        pass\n"))
 m("c13-splitext-index", "C13", "O13.3", ("src/cobald/daemon/core/config.py", '    elif os.path.splitext(config_path)[1] == ".py":', '    elif os.path.splitext(config_path)[2] == ".py":'))
-m("c18-merge-value-fix-reverted", "C18", "O18.7", ("src/cobald/daemon/core/config.py", '    def flatten_mapping(self, node):\n        # PyYAML splices the content of ``<<`` values into ``node`` without ever\n        # looking at their tags: reject here what is rejected at any other position\n        for key_node, value_node in node.value:\n            if key_node.tag == "tag:yaml.org,2002:merge":\n                # the value itself, and each of its elements if it is a list of mappings\n                merged = [value_node]\n                if isinstance(value_node, SequenceNode):\n                    merged = [value_node, *value_node.value]\n                for merged_node in merged:\n                    if merged_node.tag not in self.yaml_constructors:\n                        self.construct_undefined(merged_node)\n        super().flatten_mapping(node)\n', ""))
-m("c18-merge-value-check-inverted", "C18", "O18.7", ("src/cobald/daemon/core/config.py", "                        self.construct_undefined(merged_node)\n", "                        pass\n"))
-m("c18-merge-value-list-node-unchecked", "C18", "O18.7", ("src/cobald/daemon/core/config.py", "                    merged = [value_node, *value_node.value]\n", "                    merged = [*value_node.value]\n"))
-m("c18-merge-value-elements-unchecked", "C18", "O18.7", ("src/cobald/daemon/core/config.py", "                    merged = [value_node, *value_node.value]\n", "                    pass\n"))
+n("c18-merge-value-fix-reverted-now-harmless", "C18", ("src/cobald/daemon/core/config.py", '    def flatten_mapping(self, node):\n        # PyYAML splices the content of ``<<`` values into ``node`` without ever\n        # looking at their tags: reject here what is rejected at any other position\n        for key_node, value_node in node.value:\n            if key_node.tag == "tag:yaml.org,2002:merge":\n                # the value itself, and each of its elements if it is a list of mappings\n                merged = [value_node]\n                if isinstance(value_node, SequenceNode):\n                    merged = [value_node, *value_node.value]\n                for merged_node in merged:\n                    if merged_node.tag not in self.yaml_constructors:\n                        self.construct_undefined(merged_node)\n        super().flatten_mapping(node)\n', ""))
+n("c18-merge-value-check-inverted-now-harmless", "C18", ("src/cobald/daemon/core/config.py", "                        self.construct_undefined(merged_node)\n", "                        pass\n"))
+n("c18-merge-value-list-node-unchecked-now-harmless", "C18", ("src/cobald/daemon/core/config.py", "                    merged = [value_node, *value_node.value]\n", "                    merged = [*value_node.value]\n"))
+n("c18-merge-value-elements-unchecked-now-harmless", "C18", ("src/cobald/daemon/core/config.py", "                    merged = [value_node, *value_node.value]\n", "                    pass\n"))
 # ---- round 7: value domains, scopes and lifetimes
 m("c15-hit-list-generator", "C15", "O0.6", ("src/cobald/composite/factory.py", "        hit_list = sorted(\n            self._hatchery, key=lambda child: child.supply * child.utilisation\n        )\n", "        hit_list = (child for child in sorted(\n            self._hatchery, key=lambda child: child.supply * child.utilisation\n        ))\n"))
 m("c09-slave-table-late-binding", "C09", "O0.5", ("src/cobald/controller/switch.py", "        for _, slave in self._slaves:\n            slave.target = target\n        self.interval = interval\n", "        for _, slave in self._slaves:\n            slave.target = target\n        self._regulators = []\n        for _, slave in self._slaves:\n            self._regulators.append(lambda interval: slave.regulate(interval))\n        self.interval = interval\n"))
